@@ -5,6 +5,7 @@ use crate::cases::*;
 use crate::core::*;
 use crate::rsgen::*;
 use refimpl::gf;
+use refimpl::table::SYMBOLS;
 use serde_json::Value;
 use std::sync::Arc;
 
@@ -61,6 +62,25 @@ pub fn check(c: &RsCase) -> Verdict {
 }
 
 fn run(ctx: &Arc<Ctx>) {
+    // success must mean "codeword" inside the correction radius as well (a decoder that repairs one block
+    // and damages another one answers Ok there)
+    let mut singles = Vec::new();
+    for i in 0..48 {
+        let step = if ctx.quick() { (SYMBOLS[i].total() / 40).max(1) } else { 1 };
+        singles.extend(single_errors(i, &[0x5a], step));
+        // the last codeword of every block (the stride of the interleaving decides where it is)
+        let s = &SYMBOLS[i];
+        let data: Vec<u8> = (0..s.data).map(|k| (k as u32 * 151 + 7) as u8).collect();
+        let original = codeword_for(s, &data);
+        for b in 0..s.blocks {
+            let mut received = original.clone();
+            let p = s.total() - s.blocks + b;
+            received[p] ^= 0x5a;
+            singles.push(RsCase { sym: i, original: original.clone(), received, nearest: None, stratum: "single-error-last-ec" });
+        }
+    }
+    ctx.run_enumerated("single-errors", "rs", singles, None, check);
+    ctx.run_generated("within", "rs", ctx.cases(60_000, 2_000_000), || g_error_pattern(Radius::Within), check);
     ctx.run_generated("random", "rs", ctx.cases(250_000, 20_000_000), g_random_word, check);
     ctx.run_generated("beyond", "rs", ctx.cases(80_000, 8_000_000), || g_error_pattern(Radius::Beyond), check);
     ctx.run_generated("near-miss", "rs", ctx.cases(30_000, 2_000_000), g_near_miss, check);
